@@ -54,7 +54,10 @@ func C19(r *h.Run) {
 	// error type whose Is method matches it; net/http recognises the sentinel by
 	// identity only, so these are ordinary panic values
 	wrappedAbort := fmt.Errorf("wrapped: %w", http.ErrAbortHandler)
-	vals := []pv{{-1, nil}, {-2, nil}, {0, nil}, {1, http.ErrAbortHandler}, {2, errVal}, {3, "panic-string"}, {4, structPanic{1, 2}}, {6, wrappedAbort}, {7, abortLookalike{}}}
+	vals := []pv{{-1, nil}, {-2, nil}, {0, nil}, {1, http.ErrAbortHandler}, {2, errVal}, {3, "panic-string"}, {4, structPanic{1, 2}}, {6, wrappedAbort}, {7, abortLookalike{}},
+		// values that cannot be compared or hashed (using one as a map key, or comparing two of
+		// them with ==, panics in its turn): a slice, a map, a struct holding a slice
+		{5, []int{1, 2}}, {5, map[string]int{"a": 1}}, {5, unhashablePanic{S: []int{1}}}}
 	handlerErr := connect.NewError(connect.CodeAlreadyExists, errors.New("handler-error"))
 	for _, proto := range protos {
 		for _, kind := range kinds {
@@ -108,8 +111,16 @@ func C19(r *h.Run) {
 							hopts = append(hopts, connect.WithInterceptors(passIcpt{&log, i}))
 						}
 						hopts = append(hopts, connect.WithRecover(handle))
+						withNil := (vi+pos+len(point))%3 == 0 // nil interceptors (an optional one, switched off) are skipped
 						for i := 0; i < inner; i++ {
+							if withNil {
+								hopts = append(hopts, connect.WithInterceptors(nil, passIcpt{&log, 10 + i}, nil))
+								continue
+							}
 							hopts = append(hopts, connect.WithInterceptors(passIcpt{&log, 10 + i}))
+						}
+						if withNil && inner == 0 {
+							hopts = append(hopts, connect.WithInterceptors(nil))
 						}
 						// in a subset: the request announces a short timeout and the handler panics
 						// only after its context has ended
@@ -199,7 +210,7 @@ func C19(r *h.Run) {
 						}
 						rec := httptest.NewRecorder()
 						propagated := safely(func() { handler.ServeHTTP(rec, req) })
-						in := map[string]any{"proto": proto, "kind": kind, "panic_point": point, "panic_class": v.class, "outer": outer, "inner": inner, "recovery_function_returns": wantCode, "panics_after_its_context_ended": afterCtx}
+						in := map[string]any{"proto": proto, "kind": kind, "panic_point": point, "panic_class": v.class, "outer": outer, "inner": inner, "recovery_function_returns": wantCode, "panics_after_its_context_ended": afterCtx, "nil_interceptors_declared_after_WithRecover": withNil}
 						r.Eval("recover", fmt.Sprint(in))
 						obs := "RNormal"
 						// what the peer sees
@@ -393,3 +404,5 @@ type abortLookalike struct{}
 
 func (abortLookalike) Error() string        { return "looks like an abort" }
 func (abortLookalike) Is(target error) bool { return target == http.ErrAbortHandler }
+
+type unhashablePanic struct{ S []int }
